@@ -212,7 +212,9 @@ def to_tk(circuit):
             tk_circ.__getattribute__(box.name[:2])(2 * box.phase, *i_qubits)
         elif isinstance(box, CRz):
             tk_circ.__getattribute__(box.name[:3])(2 * box.phase, *i_qubits)
-        elif hasattr(tk_circ, box.name):
+        elif box.is_dagger and hasattr(tk_circ, box.name + "dg"):
+            tk_circ.__getattribute__(box.name + "dg")(*i_qubits)
+        elif not box.is_dagger and hasattr(tk_circ, box.name):
             tk_circ.__getattribute__(box.name)(*i_qubits)
         else:
             raise NotImplementedError
